@@ -30,8 +30,109 @@ NS = Union[int, set["NS"]]
 NL = Union[str, list["NL"]]
 RSL = set[frozenset["RSL"]]
 RDS = dict[str, set["RDS"]]
+from typing import Callable, TypedDict, Optional
+RCA = Callable[[int, "RCA"], None]
+RCR = Callable[[int], "RCR"]
+RU = Union[int, tuple["RU", "RU"]]
+class RTD(TypedDict):
+    nxt: Optional["RTD"]
 '''
 NAMES = ["RS", "RF", "RL", "RT", "RD", "RM", "RK", "NS", "NL", "RSL", "RDS"]
+EXTRA = ["RCA", "RCR", "RU"]
+
+
+def visitor_sweep(rep: Any, types: dict, modules: dict, options: Any) -> None:
+    """Type visitors and relations that every recursive alias passes through during a normal or a
+    daemon run: each must return within the recursion budget on every alias (pair)."""
+    import mypy.erasetype as ER
+    import mypy.expandtype as EX
+    import mypy.indirection as IND
+    import mypy.join as JO
+    import mypy.meet as ME
+    import mypy.server.deps as DEPS
+    import mypy.subtypes as ST
+    import mypy.typeops as TO
+    import mypy.types as T
+
+    for m in (DEPS, IND, ST, JO, ME, ER, EX, TO):
+        rep.kernel(m.__name__, __import__("vf.symx", fromlist=["x"]).source_hash(m.__file__))
+    UNARY = {
+        "server.deps.get_type_triggers": lambda t: DEPS.get_type_triggers(t, False),
+        "server.deps.get_type_triggers (logical)": lambda t: DEPS.get_type_triggers(t, True),
+        "indirection.find_modules": lambda t: IND.TypeIndirectionVisitor().find_modules([t]),
+        "str(type)": lambda t: str(t),
+        "erasetype.erase_type": lambda t: ER.erase_type(t),
+        "types.get_proper_type": lambda t: T.get_proper_type(t),
+        "types.has_recursive_types": lambda t: T.has_recursive_types(t),
+        "typeops.make_simplified_union": lambda t: TO.make_simplified_union([t, t]),
+        "type.serialize": lambda t: t.serialize(),
+    }
+    BINARY = {
+        "subtypes.is_subtype": lambda a, b: ST.is_subtype(a, b),
+        "subtypes.is_proper_subtype": lambda a, b: ST.is_proper_subtype(a, b),
+        "subtypes.is_same_type": lambda a, b: ST.is_same_type(a, b),
+        "join.join_types": lambda a, b: JO.join_types(a, b),
+        "meet.meet_types": lambda a, b: ME.meet_types(a, b),
+        "meet.is_overlapping_types": lambda a, b: ME.is_overlapping_types(a, b),
+    }
+    names = sorted(types)
+    un, bi = sorted(UNARY), sorted(BINARY)
+    ctx = Ctx(max_paths=200000)
+    found: dict = {}
+    n = {"p": 0}
+
+    def body(c: Ctx) -> None:
+        binary = bool(c.bool("binary_operation"))
+        a = names[c.choose("left", len(names))]
+        if binary:
+            b = names[c.choose("right", len(names))]
+            fname = bi[c.choose("operation", len(bi))]
+            call = lambda: BINARY[fname](types[a], types[b])  # noqa: E731
+            label = f"{fname}({a}, {b})"
+        else:
+            fname = un[c.choose("visitor", len(un))]
+            call = lambda: UNARY[fname](types[a])  # noqa: E731
+            label = f"{fname}({a})"
+        old = sys.getrecursionlimit()
+        sys.setrecursionlimit(600)
+        err = None
+        try:
+            call()
+        except RecursionError:
+            err = "RecursionError"
+        except Exception as e:  # noqa: BLE001
+            err = type(e).__name__ + ": " + str(e)[:80]
+        finally:
+            sys.setrecursionlimit(old)
+        n["p"] += 1
+        c.stats["assert_queries"] += 1
+        if err is None:
+            c.stats["discharged"] += 1
+        else:
+            c.stats["refuted"] += 1
+            found.setdefault(f"{fname} does not return on a recursive alias ({err.split(':')[0]})", (label, a, err, fname))
+
+    ctx.explore(body)
+    rep.add_ctx("K4b type visitors / relations on recursive alias types", ctx, aliases=names, unary=un, binary=bi, calls=n["p"])
+    rep.twin("K4b: calls made", n["p"] > 0)
+    rep.bounds.append(f"K4b: {len(un)} unary visitors x {len(names)} recursive aliases and {len(bi)} binary relations x every ordered pair; recursion budget 600 frames")
+    for key, (label, a, err, fname) in found.items():
+        rep.sample({"kernel": "recursive aliases", "class": key, "call": label, "error": err})
+
+        def replay(d: str, a: str = a, fname: str = fname, label: str = label) -> tuple[bool, str]:
+            # batch run with dependency generation switched on, then a daemon run
+            prog = ALIASES + f"\ndef probe(x: {a}) -> {a}:\n    return x\n"
+            with open(os.path.join(d, "prog.py"), "w") as f:
+                f.write(prog)
+            env = dict(os.environ)
+            env.pop("PYTHONPATH", None)
+            flags = ["--cache-fine-grained", "--cache-dir", os.path.join(d, "cache")] if "deps" in fname else ["--no-incremental"]
+            p = subprocess.run([sys.executable, "-m", "mypy", "--no-error-summary"] + flags + ["prog.py"], cwd=d, capture_output=True, text=True, env=env, timeout=600)
+            out = p.stdout + p.stderr
+            bad = p.returncode not in (0, 1) or "INTERNAL ERROR" in out or "Traceback" in out
+            return bad, f"{label}; mypy {' '.join(flags)} on a function over {a}: exit {p.returncode}: {out.strip()[-300:]}"
+
+        rep.candidate("recursion: " + key, f"{label}: {err}", {"call": label}, replay)
 
 
 def run(rep: Any, tier: str) -> None:
@@ -55,6 +156,13 @@ def run(rep: Any, tier: str) -> None:
     names = res.files["ra"].names
     types = {n: TypeAliasType(names[n].node, []) for n in NAMES}
     modules = res.manager.modules
+    all_types = dict(types)
+    for n_ in EXTRA:
+        all_types[n_] = TypeAliasType(names[n_].node, [])
+    from mypy.types import Instance as _Inst
+
+    all_types["RTD"] = names["RTD"].node.typeddict_type
+    visitor_sweep(rep, all_types, modules, o)
 
     class Binder:
         @staticmethod
